@@ -262,6 +262,14 @@ type SolveOpts struct {
 // solveUnit discharges all obligations of a VC. Returns the surviving
 // candidate flags.
 func solveUnit(vc *VC, opts SolveOpts) map[int]bool {
+	tPhase := time.Now()
+	phase := func(name string) {
+		if os.Getenv("CBV_PROF") != "" {
+			fmt.Fprintf(os.Stderr, "PROF %s %s %.1fs\n", vc.unit, name, time.Since(tPhase).Seconds())
+		}
+		tPhase = time.Now()
+	}
+	defer phase("premise+dump")
 	primary := solvers[0]
 	sl := newSlicer(vc)
 	flags := map[int]bool{}
@@ -306,6 +314,7 @@ func solveUnit(vc *VC, opts SolveOpts) map[int]bool {
 			}
 		}
 	}
+	phase("houdini")
 	// real obligations
 	pre := vc.preamble(flags)
 	hdr := vc.header(flags)
@@ -334,6 +343,7 @@ func solveUnit(vc *VC, opts SolveOpts) map[int]bool {
 			}
 		}
 	}
+	phase("cover+mustfail")
 	var sb strings.Builder
 	sb.WriteString(pre)
 	var idx []int
@@ -371,13 +381,24 @@ func solveUnit(vc *VC, opts SolveOpts) map[int]bool {
 				}
 				return
 			}
+			tb := time.Now()
 			var cs strings.Builder
 			cs.WriteString("(set-option :smt.mbqi false)\n")
 			cs.WriteString(hdr)
 			for _, i := range idx[lo:hi] {
 				cs.WriteString(vc.slicedQuery(sl, vc.obligs[i], i))
 			}
+			if os.Getenv("CBV_PROF") != "" {
+				fmt.Fprintf(os.Stderr, "PROF chunk %d: build %.1fs\n", lo, time.Since(tb).Seconds())
+			}
+			if os.Getenv("CBV_DUMP_CHUNK") != "" {
+				os.WriteFile(fmt.Sprintf("/tmp/chunk_%s_%d.smt2", sanitize(vc.unit), lo), []byte(cs.String()), 0o644)
+			}
+			tc := time.Now()
 			res := runScript(primary, cs.String(), hi-lo, 2000)
+			if os.Getenv("CBV_PROF") != "" {
+				fmt.Fprintf(os.Stderr, "PROF chunk %d: script %d KB, solver %.1fs\n", lo, cs.Len()/1024, time.Since(tc).Seconds())
+			}
 			for _, i := range idx[lo:hi] {
 				o := vc.obligs[i]
 				if r, ok := res[i]; ok {
@@ -402,7 +423,12 @@ func solveUnit(vc *VC, opts SolveOpts) map[int]bool {
 				go func(o *Oblig) {
 					defer wg.Done()
 					// first on the sliced hypothesis set, then on the full one
-					recheck(vc, hdr+vc.slicedAsserts(sl, o), o, opts)
+					// (the sliced set can lack a needed hypothesis: short budget there)
+					short := opts
+					if short.RecheckMs > 3000 && !opts.AllSolvers {
+						short.RecheckMs = 3000
+					}
+					recheck(vc, hdr+vc.slicedAsserts(sl, o), o, short)
 					if o.Status != "unsat" {
 						recheck(vc, vc.preambleFor(flags, o, false), o, opts)
 					}
@@ -431,7 +457,11 @@ func solveUnit(vc *VC, opts SolveOpts) map[int]bool {
 					}
 				}(o)
 			}
+			tr := time.Now()
 			wg.Wait()
+			if os.Getenv("CBV_PROF") != "" {
+				fmt.Fprintf(os.Stderr, "PROF chunk %d: rechecks %.1fs\n", lo, time.Since(tr).Seconds())
+			}
 			for _, i := range idx[lo:hi] {
 				if vc.obligs[i].Status != "unsat" {
 					atomic.AddInt64(&confirmed, 1)
@@ -440,6 +470,7 @@ func solveUnit(vc *VC, opts SolveOpts) map[int]bool {
 		}(lo, hi)
 	}
 	cwg.Wait()
+	phase("obligations")
 	vc.premiseCheck(flags)
 	if opts.DumpDir != "" {
 		for _, i := range idx {
